@@ -180,24 +180,40 @@ impl Eval for Cmp {
         match self.op {
             CmpOp::Eq => cmp_dispatch(&PartialEq::eq, &context.resolve(&self.path), &self.value),
             CmpOp::NotEq => cmp_dispatch(&PartialEq::ne, &context.resolve(&self.path), &self.value),
-            CmpOp::LessThan => {
-                cmp_dispatch(&PartialOrd::lt, &context.resolve(&self.path), &self.value)
-            }
-            CmpOp::LessThanEq => {
-                cmp_dispatch(&PartialOrd::le, &context.resolve(&self.path), &self.value)
-            }
-            CmpOp::GreatThan => {
-                cmp_dispatch(&PartialOrd::gt, &context.resolve(&self.path), &self.value)
-            }
-            CmpOp::GreatThanEq => {
-                cmp_dispatch(&PartialOrd::ge, &context.resolve(&self.path), &self.value)
-            }
+            // Ordering comparisons are defined only between values of the same kind
+            CmpOp::LessThan => cmp_dispatch(
+                &|a: &Value, b: &Value| same_kind(a, b) && a < b,
+                &context.resolve(&self.path),
+                &self.value,
+            ),
+            CmpOp::LessThanEq => cmp_dispatch(
+                &|a: &Value, b: &Value| same_kind(a, b) && a <= b,
+                &context.resolve(&self.path),
+                &self.value,
+            ),
+            CmpOp::GreatThan => cmp_dispatch(
+                &|a: &Value, b: &Value| same_kind(a, b) && a > b,
+                &context.resolve(&self.path),
+                &self.value,
+            ),
+            CmpOp::GreatThanEq => cmp_dispatch(
+                &|a: &Value, b: &Value| same_kind(a, b) && a >= b,
+                &context.resolve(&self.path),
+                &self.value,
+            ),
         }
     }
 }
 
+fn same_kind(lhs: &Value, rhs: &Value) -> bool {
+    std::mem::discriminant(lhs) == std::mem::discriminant(rhs)
+}
+
 fn cmp_dispatch<Cmp: Fn(&Value, &Value) -> bool>(cmp: &Cmp, lhs: &Value, rhs: &Value) -> bool {
     match lhs {
+        // A tag that is missing, or Null, does not satisfy any comparison
+        Value::Null => false,
+
         Value::List(list) => {
             if !rhs.is_list() {
                 list.iter().any(|el| cmp_dispatch(cmp, el, rhs))
